@@ -166,7 +166,7 @@ var structMuts = []string{"swap_blocks", "drop_last", "drop_mid", "dup_block", "
 	"insert_attacker", "append_attacker", "replace_attacker", "append_captured", "rekey", "proof_from_donor", "proof_attacker_seal",
 	"proof_attacker_secret", "seal_captured", "seal_sig_flip", "last_key_flip", "block_flip", "sig_flip", "key_flip", "secret_flip",
 	"rootid", "alg", "unknown_field", "sig_len", "key_len", "secret_len",
-	"proof_crafted", "proof_crafted", "proof_crafted", "forge_tail", "forge_tail"}
+	"proof_crafted", "proof_crafted", "proof_crafted", "forge_tail", "forge_tail", "forge_small_order"}
 
 func (h *hist) mutation(kinds []string) vm.Mut {
 	r := h.r
@@ -220,7 +220,9 @@ func (h *hist) verifyTok(t int, key int) {
 				ks.Map = append(ks.Map, vm.KeyEntry{ID: 0, Key: other})
 			}
 		} else {
-			ks.Def = key
+			if h.r.Intn(4) != 0 { // else: no default at all, a token without id finds no key
+				ks.Def = key
+			}
 			if h.r.Intn(2) == 0 {
 				ks.Map = append(ks.Map, vm.KeyEntry{ID: 0, Key: other})
 			}
@@ -502,6 +504,12 @@ func genC16(r *rand.Rand, run int, tier string) *vm.Plan {
 		if r.Intn(5) == 0 { // the id is rewritten in transit
 			b := h.send(t)
 			mb := h.add(vm.Op{K: "mut", A: b, Muts: []vm.Mut{{Kind: "rootid", Val: []int{-1, 0, 1, 2, 3}[r.Intn(5)]}}, Out: h.slot()})
+			t = h.receive(mb, false)
+		} else if r.Intn(6) == 0 {
+			// the adversary presents a token of its own making that needs no private key: it is signed
+			// "by" the all-zero bytes, which no verifier holds as a key
+			b := h.send(t)
+			mb := h.add(vm.Op{K: "mut", A: b, Muts: []vm.Mut{{Kind: "forge_small_order", Key: h.attacker, Val: r.Intn(256)}}, Out: h.slot()})
 			t = h.receive(mb, false)
 		}
 		// boundary configurations: a default key that is configured but nil / empty, ids registered with an empty key
